@@ -64,7 +64,7 @@ fn insertion_races(rep: &mut Report, rng: &mut Rng, rounds: usize) -> u64 {
                     s.spawn(move || {
                         ready.fetch_add(1, SeqCst);
                         while !go.load(SeqCst) {
-                            std::hint::spin_loop();
+                            crate::util::pause();
                             #[cfg(miri)]
                             std::thread::yield_now();
                         }
